@@ -64,8 +64,9 @@ def run(c):
     c.coverage['cli_search_order'] = cli
     for want, (rc, ok, err) in cli.items():
         if rc != 0 or not ok:
-            c.violation({'property': 'C12', 'kind': 'CLI: the inclusion file of the first -I directory is not the one used',
-                         'expected_byte_order': want, 'exit': rc, 'stderr': err, 'doc': CLI_DOC})
+            c.violation({'property': 'C12', 'kind': 'CLI: the inclusion file that comes first in the documented search order '
+                         '(each -I directory in order, then the current directory, then the standard directory) is not the one used',
+                         'probe': want, 'exit': rc, 'stderr': err, 'doc': CLI_DOC})
     indom = [d for d in r.disagreements if d['in_domain']]
     if indom and ob['ok']:
         d = indom[0]
@@ -101,7 +102,45 @@ def cli_search_order_inproc(work):
         p = subprocess.run(['/venv/bin/barectf', 'show-effective-configuration',
                             '-I', order[0], '-I', order[1], cfgp], capture_output=True, text=True, env=env, cwd=work)
         res[want] = (p.returncode, want in p.stdout, p.stderr[-300:])
+    # the standard inclusion directory comes *last* (include.adoc: each --include-dir in order, then the current
+    # working directory, then the standard directory): a user file named like a packaged one wins, whether it sits in
+    # a --include-dir directory or in the current working directory
+    d3 = os.path.join(work, 'cli3')
+    os.makedirs(d3)
+    for shipped, body, doc, marker in (
+            ('stdint.yaml', '$field-type-aliases:\n  uint16: {class: uint, size: 16, alignment: 8, preferred-display-base: hex}\n',
+             SHADOW_DOC % {'inc': 'stdint.yaml', 'ft': 'uint16', 'll': '7'}, 'preferred-display-base: hex'),
+            ('lttng-ust-log-levels.yaml', '$log-level-aliases:\n  WARNING: 77\n',
+             SHADOW_DOC % {'inc': 'lttng-ust-log-levels.yaml', 'ft': '{class: uint, size: 8}', 'll': 'WARNING'}, 'log-level: 77')):
+        for where in ('include-dir', 'cwd'):
+            wd = os.path.join(d3, f'{shipped}-{where}')
+            inc = os.path.join(wd, 'inc') if where == 'include-dir' else wd
+            os.makedirs(inc)
+            open(os.path.join(inc, shipped), 'w').write(body)
+            cp = os.path.join(wd, 'config.yaml')
+            open(cp, 'w').write(doc)
+            cmd = ['/venv/bin/barectf', 'show-effective-configuration'] + (['-I', 'inc'] if where == 'include-dir' else []) + ['config.yaml']
+            p = subprocess.run(cmd, capture_output=True, text=True, env=env, cwd=wd)
+            res[f'user {shipped} in {where} shadows the packaged file'] = (p.returncode, marker in p.stdout, p.stderr[-300:])
     return res
+
+
+SHADOW_DOC = '''--- !<tag:barectf.org,2020/3/config>
+trace:
+  type:
+    $include: [%(inc)s]
+    native-byte-order: le
+    data-stream-types:
+      s:
+        $is-default: true
+        event-record-types:
+          e:
+            log-level: %(ll)s
+            payload-field-type:
+              class: struct
+              members:
+                - b: {field-type: %(ft)s}
+'''
 
 
 def replay(c, path):
